@@ -118,6 +118,7 @@ class World2:
         self.cfg = cfg
         seams.install_poison()
         seams.set_poison(cfg.get("poison", "none"))
+        seams.reset_globals()
         self.cls = cfg["cls"]
         self.n = cfg.get("n", 4)
         self.actors = {}
